@@ -191,7 +191,7 @@ def o2_marking(chk, prog, taglen):
 def o4_gate(chk, prog):
     ob = chk.begin('O4-gate', 'ServerPool::has_broken (consulted by bb8 whenever a connection is put back, on every exit path of Client::handle '
                    'including `?` returns and unwinding) from an arbitrary Server state: a connection is kept for reuse only if it is not bad, '
-                   'not inside a transaction, not in COPY mode and has no unread reply pending', {'server_state': 'arbitrary flags'})
+                   'not inside a transaction, not in COPY mode, has no unread reply pending and carries no session state checkin_cleanup would have reset', {'server_state': 'arbitrary flags'})
     hb = [f for f in prog.lookup('<ServerPool as ManageConnection>::has_broken')]
     if len(hb) != 1:
         hb = [f for n, f in prog.funcs.items() if n.endswith('::has_broken')]
@@ -208,15 +208,18 @@ def o4_gate(chk, prog):
 
     def harness(ip_):
         st = StreamV([], 'server')
-        srv, pre, prebuf = mk_symbolic_server(ip_, prog, st, 0, bad=sym_flag(ip_, 'pre_bad'))
+        cc = sym_flag(ip_, 'cleanup_connections')
+        srv, pre, prebuf = mk_symbolic_server(ip_, prog, st, 0, bad=sym_flag(ip_, 'pre_bad'), cleanup_connections=cc)
         pool = Opaque('ServerPool', 'manager')
         r = ip_.call_function(hb[0], [Ptr(Cell(pool, 'mgr')), Ptr(Cell(srv, 'server'))])
         broken = flag_val(ip_, r)
         ob.nontrivial += 1
         f = {k: flag_val(ip_, v) for k, v in server_flags(ip_, prog, srv).items()}
-        dirty = f['in_transaction'] or f['in_copy_mode'] or f['data_available'] or f['bad']
+        # (session state that checkin_cleanup would have reset -- unless the pool is configured not to clean its connections)
+        f['session_state'] = flag_val(ip_, cc) and (f['needs_cleanup_set'] or f['needs_cleanup_prepare'])
+        dirty = f['in_transaction'] or f['in_copy_mode'] or f['data_available'] or f['bad'] or f['session_state']
         if not broken and dirty:
-            which = [k for k in ('in_transaction', 'in_copy_mode', 'data_available', 'bad') if f[k]]
+            which = [k for k in ('in_transaction', 'in_copy_mode', 'data_available', 'bad', 'session_state') if f[k]]
             chk.report(ob, 'C02/O4/dirty-connection-kept/' + which[0],
                        'a connection with %s is put back into the pool for the next client (has_broken consults only `bad`); reachable e.g. '
                        'when a client inside a transaction sends a malformed Close message: the task unwinds past checkin_cleanup' % '+'.join(which),
